@@ -89,10 +89,19 @@ def positive_identifications(ctx, F, tag):
     tls = [(bi, t) for bi, t in b.calls() if callee_name(t).startswith("std::thread::LocalKey::<") and callee_name(t).split("::")[-1] in ("with", "try_with", "get", "set", "replace", "take")]
     rmw = [(bi, t) for bi, t in b.calls() if callee_name(t).split("::")[-1].startswith("fetch_") and "atomic" in callee_name(t)]
     tid = [(bi, t) for bi, t in b.calls() if callee_name(t) in ("std::thread::current", "std::thread::Thread::id")]
-    if tls and not rmw and not tid:
+    # ... unless a process-wide atomic feeds the thread-local state itself (a per-thread tag drawn once from a global counter in the
+    # thread-local's initialiser): then the scheme may well be unique, and the complete argument below simply does not apply
+    feeders = []
+    for nm in F.bodies:          # (every body, also the helpers the normaliser hides: a thread-local's initialiser is one)
+        if nm != FUNC and nm.startswith("serialize::") and len(F.bodies[nm]) == 1:
+            for blk in F.bodies[nm][0]["mir"]["blocks"]:
+                tt = blk["term"]
+                if tt["t"] == "call" and callee_name(tt).split("::")[-1].startswith("fetch_") and "atomic" in callee_name(tt):
+                    feeders.append(nm)
+    if tls and not rmw and not tid and not feeders:
         ctx.ob("C20.R1.counter-is-process-wide", FUNC + tag, loc(tls[0][1]["sp"]), False, "value-provenance",
                "the number in the name is drawn from thread-local state (%s) and no process-wide atomic read-modify-write or ThreadId enters the name: "
-               "two threads -- or a thread that inherits an exited thread's storage -- can draw the same number" % callee_name(tls[0][1]).split("<")[0])
+               "two threads -- or a thread that inherits an exited thread's storage -- can draw the same number" % callee_name(tls[0][1]).split("<")[0], positive=True)
         found = True
     for bi, t in b.calls():
         cn = callee_name(t)
@@ -101,7 +110,7 @@ def positive_identifications(ctx, F, tag):
             if any(x[0] == "param" and x[1] == 0 for x in subterms(recv) if isinstance(x, tuple) and x):
                 ctx.ob("C20.R2.name-part-verbatim", "%s#%d%s" % (FUNC, bi, tag), loc(t["sp"]), False, "value-provenance",
                        "text that already contains the caller's name part is passed through %s: a name part containing the pattern is rewritten, so the returned path "
-                       "no longer contains it" % cn.split("::")[-1])
+                       "no longer contains it" % cn.split("::")[-1], positive=True)
                 found = True
     return found
 
